@@ -101,7 +101,7 @@ Fixpoint walk_complete (t : ty) : bool :=
   | TStruct fs =>
     (fix go (l : list (string * bool * ty * string)) : bool :=
        match l with [] => true | (_, _, x, _) :: r => walk_complete x && go r end) fs
-  | TIface IfAny _ _ => true
+  | TIface IfAny ms es => match ms, es with [], [] => true | _, _ => false end
   | TIface _ ms es => w_nl ms && w_l es
   | TUnion ts =>
     (fix go (l : list (bool * ty)) : bool :=
